@@ -162,6 +162,12 @@ def check_layer_ab(pid, tier, seed, rep):
         import stage_n
         N = stage_n.stage(seed, tier)
         for r in N["records"]:
+            if r["meta"].get("value_check") and r["gen_rc"] == 0 and r["vet_rc"] not in (0, None):
+                # the program pins the injector's signature (var f func() T = Init): a declared supplier that is not found
+                # turns into a parameter, the value then depends on the caller
+                rep.violation("run-%s" % r["name"], dict(package_dir=os.path.join(N["srcdir"], r["dir"]), meta=r["meta"], vet=r["vet"], generated=r.get("band"),
+                                                         how="cd <package_dir> && kessoku <targets> && go vet ."),
+                              "%s: the injector does not have the signature the declaration determines, a declared supplier is not used: %s" % (r["name"], r["vet"].strip()[-250:]))
             if not r["expect"] and r["gen_rc"] == 0 and r["vet_rc"] == 0 and r.get("run_rc"):
                 viol.append(dict(pkg=r["name"], inj="<main>", detail="the injector's value differs from the sequential value the program expects: " + r.get("run_err", "")[-300:], scenario=None))
                 rep.violation("run-%s" % r["name"], dict(package_dir=os.path.join(N["srcdir"], r["dir"]), meta=r["meta"], output=r.get("run_err"), generated=r.get("band"),
